@@ -443,11 +443,11 @@ K_NODE_CREATE = "crash:node-create-before-token-finalised-residue"
 K_NO_DETAILS = "crash:cleanup-without-details-uses-global-config"
 K_NODE_DROP = "crash:node-drop-after-state-removed-residue"
 K_TAG = "crash:tag-created-not-finalised-node-never-clean"
-K_SHM = "crash:shm-created-not-truncated-survivor-hangs"
+K_SHM = "crash:shm-created-not-truncated-survivor-hangs"      # fixed in /repo by 868edb1, no longer a class
 K_STATIC = "crash:service-create-before-unlock-static-config-stays"
 K_SVC_DROP = "crash:service-drop-tag-first-orphans-configs"
 K_LISTENER = "crash:listener-create-residue-event-mgmt"
-ROOT_CAUSE_KEYS = [K_NODE_CREATE, K_NO_DETAILS, K_NODE_DROP, K_TAG, K_SHM, K_STATIC, K_SVC_DROP, K_LISTENER]
+ROOT_CAUSE_KEYS = [K_NODE_CREATE, K_NO_DETAILS, K_NODE_DROP, K_TAG, K_STATIC, K_SVC_DROP, K_LISTENER]
 
 
 def _residue(sym, prefix="residue-after-cleanup:"):
@@ -486,11 +486,8 @@ def classify(process, wk, at, syms, uname):
     # (2) dead node without details file (node drop past the details removal, or a cleaner that died past it)
     if syms == ["cleanup-without-details-uses-global-config"] and (wk == "node-drop" or cleaner) and in_node_files:
         return K_NO_DETAILS
-    # (5) root only: shm object created, not yet truncated: the survivor's cleanup loops for ever
-    if syms == ["survivor-hang:after"] and uname == "self" and os.geteuid() == 0 and path.startswith("/dev/shm/") and \
-            (call == "ftruncate" or (call == "shm_open" and "O_CREAT" in at)) and \
-            (wk.startswith(("svc-create-", "port-create-")) or "@steady_" in wk or "@full_" in wk):
-        return K_SHM
+    # (5) crash:shm-created-not-truncated-survivor-hangs was repaired in /repo (868edb1): a survivor hang is an unkeyed
+    #     VIOLATION again; the crash points of that class run first as regression cases (regression_zero_size)
     # (6) service creator dies with the static config created but not unlocked
     if wk.startswith("svc-create-") and path.endswith(".service") and syms and \
             all(x == "residue-after-cleanup:static-config" or re.match(r"^probe-differs:svc n1 \w+:err:AlreadyExists$", x) for x in syms):
@@ -737,7 +734,7 @@ def enumerate_as(ctx, tdir, scs, user, th, model_steps, classes, stats):
                     continue
                 seen_local.add((w_, rl))
                 g = (window_kind(w_, nme_).split("@")[0], rl)
-                pr = 0 if g not in seen_global else 2
+                pr = 0 if g not in seen_global else 3
                 seen_global.add(g)
                 # the state right BEFORE the call (everything un-gated that precedes it, e.g. registry writes, is done)
                 # and the state right after it
@@ -753,13 +750,14 @@ def enumerate_as(ctx, tdir, scs, user, th, model_steps, classes, stats):
                     continue
                 ww = re.sub(r"^\d+:", "", w_)
                 if ww.startswith("svc_") or ww == "drop_s":
-                    reps[(nme_, i_)] = min(1, reps.get((nme_, i_), 9))
+                    # open first (a lost registry slot only shows there), then create
+                    reps[(nme_, i_)] = min(1 if nme_.startswith("open_") else 2, reps.get((nme_, i_), 9))
 
     def prio(j):
         nme, k, ka, ck, cka = j
         tr = info[nme]["ctrace"] if ck is None else info[nme]["cctrace"]
         idx = k if ck is None else ck
-        mut = 3 if (MUTATING.search(tr[idx - 1]) or (idx >= 2 and MUTATING.search(tr[idx - 2]))) else 4
+        mut = 4 if (MUTATING.search(tr[idx - 1]) or (idx >= 2 and MUTATING.search(tr[idx - 2]))) else 5
         if ck is None and not ka and (nme, k) in reps:
             mut = reps[(nme, k)]
         return (mut, hashlib.sha1(("%s|%s|%s" % (ctx.seed, uname, j)).encode()).hexdigest())
@@ -861,6 +859,36 @@ def enumerate_as(ctx, tdir, scs, user, th, model_steps, classes, stats):
     ctx.log("user %s: enumeration of %d cases (%d skipped by the time budget), %.1fs, %d failing cases" % (uname, len(jobs) - skipped, skipped, time.time() - t_enum, nfail))
 
 
+def regression_zero_size(ctx, tdir):
+    """former finding crash:shm-created-not-truncated-survivor-hangs (fixed: 868edb1): as root, kill the victim right before
+    every ftruncate of a freshly created shm object; the survivor's cleanup must terminate and satisfy the oracle (a listener's
+    event segment is the separate known finding crash:listener-create-residue-event-mgmt).  Only meaningful as root: an
+    ordinary user cannot open the write-only object at all."""
+    if os.geteuid() != 0:
+        ctx.notes.append("zero-size shm regression cases skipped: the check does not run as root")
+        return 0
+    n = 0
+    with cf.ThreadPoolExecutor(max_workers=vlib.NPROC) as ex:
+        refs = {sc: ex.submit(run_case, tdir, sc, user=None) for sc in ("port_pub", "port_cli", "port_lis", "create_ps")}
+        jobs = []
+        for sc, f in refs.items():
+            ref = f.result()
+            ct = canon_trace(ref.get("victim_trace", []), ref["canon"])
+            for i, l in enumerate(ct, 1):
+                if l.startswith("ftruncate /dev/shm/"):
+                    jobs.append((sc, i, l, ref, ex.submit(run_case, tdir, sc, i, user=None)))
+        for sc, i, l, ref, f in jobs:
+            res = f.result()
+            n += 1
+            syms = [b[0] for b in judge(res, ref)]
+            if syms and classify("victim", window_kind(window_of(canon_trace(res.get("victim_trace", []), res["canon"]), i), sc), l, syms, "self") != K_LISTENER:
+                ctx.violation("regression of fix 868edb1 (crash between shm_open(O_CREAT) and ftruncate, as root): scenario %s, victim killed at gated call %d (%s): %s" % (sc, i, l, syms),
+                              {"scenario": sc, "crash_index": i, "process": "victim", "run_as_user": "self", "call_at_crash_point": l, "symptoms": syms,
+                               "survivor_after": res["phases"].get("after"), "how_to_rerun": replay_cmd(res)})
+    ctx.cov["zero_size_shm_regression_cases"] = n
+    return n
+
+
 def _on_term(signum, frame):
     cleanup_own()
     os._exit(143)
@@ -907,6 +935,8 @@ def run(ctx):
     if only:
         scs = [s for s in scs if re.search(only, s["name"])]
     users = default_users(th)
+    if not only:
+        regression_zero_size(ctx, tdir)
     model_steps = model_step_lists(ctx)
     classes = {}
     stats = {"ncases": 0, "nfail": 0, "prefix_mismatch": 0, "roles": set(), "per_scn": {}, "tie_bad": [], "tie_checked": 0, "tie_user": users[0], "seen_roles": set(), "seen_croles": set(), "selected": 0, "skipped": 0, "samples": [], "nontrivial": set(), "nusers": len(users)}
@@ -920,7 +950,7 @@ def run(ctx):
         sym = c["first"]["symptom"]
         if not sym.startswith(("survivor-hang", "victim-hang", "cleaner-hang", "survivor-died", "node-never-clean")):
             continue
-        if c.get("root_cause") and c["root_cause"] != K_SHM:
+        if c.get("root_cause"):
             continue                                  # a stuck cleanup loop with a definite error result is not timing dependent
         nconf = sum(1 for x in classes.values() if "confirmed" in x)
         if nconf >= int(os.environ.get("C04_MAX_CONFIRM", "10" if th else "3")):
